@@ -44,7 +44,7 @@ func c19GenFile(r *Rng, idx int, force int) c19File {
 	var tables []string // global tables that can get members
 	var ltables []string
 	for i := 0; i < nStat; i++ {
-		switch r.Intn(17) {
+		switch r.Intn(18) {
 		case 0:
 			v := nm("Loc")
 			sb.WriteString(fmt.Sprintf("local %s = %d\n", v, i))
@@ -113,6 +113,23 @@ func c19GenFile(r *Rng, idx int, force int) c19File {
 			v, g := nm("inner"), nm("InnerGlob")
 			sb.WriteString(fmt.Sprintf("do\n  local %s = 1\n  %s = %s\nend\n", v, g, v))
 			wants = append(wants, want{g, "global-assigned-in-block", true})
+		case 17:
+			// a function member declared through self inside a colon method, the method on one line or on several
+			var tb string
+			if len(tables) > 0 && r.Bool() {
+				tb = tables[r.Intn(len(tables))]
+			} else if len(ltables) > 0 {
+				tb = ltables[r.Intn(len(ltables))]
+			} else {
+				continue
+			}
+			mt, fn := nm("selfmeth"), nm("selffn")
+			if r.Bool() {
+				sb.WriteString(fmt.Sprintf("function %s:%s() self.%s = function(q) return q end end\n", tb, mt, fn))
+			} else {
+				sb.WriteString(fmt.Sprintf("function %s:%s()\n  self.%s = function(q)\n    return q\n  end\nend\n", tb, mt, fn))
+			}
+			wants = append(wants, want{mt, "function-t:m", true}, want{fn, "function-member-assigned-through-self", true})
 		case 16:
 			// a function member of a table that is local to a block
 			tb, fn := nm("BlkTab"), nm("blkfn")
